@@ -39,9 +39,25 @@ structure Codec (P Sc Lo Row Ser PJ ScB LoB RowT SerT : Type) where
 
 variable {P Sc Lo Row Ser PJ ScB LoB RowT SerT : Type}
 
-/-- `save_calibrator_state`: four files are rewritten; the series file is created when absent, otherwise only
-`series[rows_on_disk:]` is appended behind what is there -/
-def save (cd : Codec P Sc Lo Row Ser PJ ScB LoB RowT SerT) (f : Folder PJ ScB LoB RowT SerT)
+/-- `save_calibrator_state`: four files are rewritten; the series file is created when absent; when present, only
+`series[rows_on_disk:]` is appended behind what is there **provided the rows on disk are the first rows of the
+current history** (same trailing shape, not more rows, equal content — `np.array_equal(data[:], series_samp[:nb_rows])`),
+otherwise the file is rewritten.  float64 rows are stored verbatim in HDF5, so the comparison is modelled on the
+encoded side. -/
+def save [BEq SerT] (cd : Codec P Sc Lo Row Ser PJ ScB LoB RowT SerT) (f : Folder PJ ScB LoB RowT SerT)
+    (s : Snap P Sc Lo Row Ser) : Folder PJ ScB LoB RowT SerT :=
+  { paramsJson := some (cd.encP s.params)
+    schedPickle := some (cd.encSc s.sched)
+    lossPickle := some (cd.encLo s.loss)
+    resultsCsv := some (s.rows.map cd.encRow)
+    seriesH5 := match f.seriesH5 with
+      | none => some (s.series.map cd.encSer)
+      | some old =>
+        if old.isPrefixOf (s.series.map cd.encSer) then some (old ++ (s.series.drop old.length).map cd.encSer)
+        else some (s.series.map cd.encSer) }
+
+/-- the pinned code before the repair: the rows on disk were kept unconditionally -/
+def saveUnchecked (cd : Codec P Sc Lo Row Ser PJ ScB LoB RowT SerT) (f : Folder PJ ScB LoB RowT SerT)
     (s : Snap P Sc Lo Row Ser) : Folder PJ ScB LoB RowT SerT :=
   { paramsJson := some (cd.encP s.params)
     schedPickle := some (cd.encSc s.sched)
